@@ -131,7 +131,7 @@ def generate_cb(ctx):
 
 def generate_sl(ctx):
     behs = []
-    for w in ["WitSleep", "WitTryFail2"]:
+    for w in ["WitSleep", "WitTryFail2", "WitSecondRound"]:
         c = _cfg(ctx, "w.cfg", SL_CFG % (2, 2, 100, "TRUE", w))
         r = tlc.tlc("SpinLock", c, rundir=ctx.rundir.path, workers=8, timeout_s=300, tag=w)
         ctx.add_tlc("witness " + w, r)
@@ -291,6 +291,11 @@ def run(ctx):
         lruns.append(["pct", 4000 if thorough else 500, s + 1, n, r])
     lruns.append(["dfs", 10 ** 7, s, 2, 2, 3 if thorough else 2])
     lruns.append(["dfs", 10 ** 7, s, 3, 2 if thorough else 1, 2])
+    # long critical sections (the holder sleeps): waiters go through the whole spin / yield / sleep cycle
+    for (n, r) in [(2, 2), (3, 2)]:
+        lruns.append(["random", 1500 if thorough else 200, s + 2, n, r, 2, 1])
+        lruns.append(["pct", 1500 if thorough else 200, s + 3, n, r, 2, 1])
+    lruns.append(["dfs", 10 ** 7, s, 2, 2, 2 if thorough else 1, 1])
     ll2, lstuck = explore(ctx, lexe, lruns, "lock")
     check_logs(ctx, "LockMonitor", "LockMonitor.cfg", llines + ll2, "lock", lstuck)
     ctx.evaluations = ctx.traces
